@@ -157,6 +157,16 @@ Example C15_mandatory_order_nonvacuous :
   Permutation [w_ph0; w_ph1] [w_ph1; w_ph0] /\ mandatory true w_db [w_ph1; w_ph0] = [w_ph0_lbl; w_ph1_lbl].
 Proof. split; [apply perm_swap|reflexivity]. Qed.
 
+(** Only the variables of the assertion (and of its $e hypotheses, which the translator does not support) are
+    mandatory.  Feeding the numbering also the variables that occur only in a $d of the enclosing block (dummy
+    variables) shifts every listed label and marked step: *)
+Theorem C15_refuted_dv_only_variables_mandatory :
+  exists fs vars dv src, import_statement true fs (vars ++ dv) src <> import_statement true fs vars src.
+Proof.
+  exists w_db, [w_ph1], [w_ph0], w_src. vm_compute. intros H. discriminate H.
+Qed.
+Print Assumptions C15_refuted_dv_only_variables_mandatory.
+
 (** The whole of [_import_proof], for every database, variable-set iteration order, whitespace
     layout, label list, chunking of the letters into words and placement of Z. *)
 Theorem C15_import_statement_spec :
